@@ -108,7 +108,7 @@ Qed.
 Lemma step_pure a st : is_pure_eact a = true -> fst (fst (step k c i st a)) = fst (fst st).
 Proof.
   destruct st as [[f out] r]. unfold step. destruct (is_ok r); cbn [negb]; [|reflexivity].
-  destruct a as [g dry o|g o|al|g dry aow o e|]; cbn [is_pure_eact]; intros Hp; try reflexivity; subst dry.
+  destruct a as [g dry o|g o|al|g dry aow o e| |]; cbn [is_pure_eact]; intros Hp; try reflexivity; subst dry.
   - pose proof (gen_all_dry_fs k c HG g true (items k c i g o) f []) as E.
     destruct (gen_all k c g true true (items k c i g o) f []) as [[f1 g1] r1]. exact E.
   - pose proof (gen_all_dry_fs k c HG g aow (items k c i g o) f []) as E.
@@ -135,7 +135,7 @@ Proof.
   induction t as [|a t IH]; intros Hall f out f' out' H; cbn [fold_left] in H.
   - inversion H; subst. cbn. repeat split; try tauto. intros [?|(go & [] & _)]; assumption.
   - cbn [forallb] in Hall. apply andb_true_iff in Hall. destruct Hall as [Ha Ht].
-    destruct a as [g dry o|g o|al|g dry aow o e|]; cbn [is_real_gen] in Ha; try discriminate.
+    destruct a as [g dry o|g o|al|g dry aow o e| |]; cbn [is_real_gen] in Ha; try discriminate.
     destruct dry; [discriminate|].
     unfold step at 2 in H. cbn [is_ok negb] in H.
     destruct (gen_all k c g false aow (items k c i g o) f []) as [[f1 g1] r1] eqn:E.
@@ -161,7 +161,7 @@ Proof.
   induction t as [|a t IH]; intros Hall Hok f out; cbn [fold_left].
   - cbn. rewrite app_nil_r. reflexivity.
   - cbn [forallb] in Hall. apply andb_true_iff in Hall. destruct Hall as [Ha Ht].
-    destruct a as [g dry o|g o|al|g dry aow o e|]; cbn [is_list_gen] in Ha; try discriminate. subst dry.
+    destruct a as [g dry o|g o|al|g dry aow o e| |]; cbn [is_list_gen] in Ha; try discriminate. subst dry.
     unfold step at 2. cbn [is_ok negb].
     rewrite (gen_all_dry_ok k c HG g true (items k c i g o) f []) by (apply (Hok (g, o)); cbn; left; reflexivity).
     cbn [is_ok app]. rewrite IH; [|assumption|intros go Hgo; apply Hok; cbn; right; assumption].
@@ -172,6 +172,7 @@ Definition listed_by (a : eact) : list path :=
   match a with
   | EListTemplates g o => listed_templates k c g o
   | EListSources al => listed_sources k c i al
+  | EListDepSources => listed_dep_sources k c i
   | _ => []
   end.
 
@@ -181,7 +182,7 @@ Proof.
   induction t as [|a t IH]; intros Hall f out; cbn [fold_left].
   - cbn. rewrite app_nil_r. reflexivity.
   - cbn [forallb] in Hall. apply andb_true_iff in Hall. destruct Hall as [Ha Ht].
-    destruct a as [g dry o|g o|al|g dry aow o e|]; cbn [is_list_input] in Ha; try discriminate;
+    destruct a as [g dry o|g o|al|g dry aow o e| |]; cbn [is_list_input] in Ha; try discriminate;
       unfold step at 2; cbn [is_ok negb]; rewrite IH by assumption; cbn [flat_map listed_by]; rewrite <- app_assoc; reflexivity.
 Qed.
 End Folds.
@@ -270,10 +271,43 @@ Proof.
     apply (IH d'); [apply (find_root i key); assumption | assumption].
 Qed.
 
+Lemma path_in_spec p l : path_in p l = true <-> In p l.
+Proof.
+  unfold path_in. rewrite existsb_exists. split.
+  - intros (q & Hq & He). destruct (path_eqb_spec p q); [subst; assumption|discriminate].
+  - intros H. exists p. split; [assumption|]. destruct (path_eqb_spec p p); congruence.
+Qed.
+
+Lemma types_read_modes k c i d o li : chk_stable k (c_flags c) = true ->
+  types_read k (with_flags c (set_modes (c_flags c) d o li)) i = types_read k c i.
+Proof.
+  intros H. destruct (chk_stable_spec k (c_flags c) d o li H) as [Hr _].
+  unfold types_read. cbn [c_flags with_flags]. rewrite Hr. reflexivity.
+Qed.
+
+Lemma listed_sources_modes k c i d o li al : chk_stable k (c_flags c) = true ->
+  listed_sources k (with_flags c (set_modes (c_flags c) d o li)) i al = listed_sources k c i al.
+Proof. intros H. unfold listed_sources. rewrite types_read_modes by assumption. reflexivity. Qed.
+
+Lemma listed_dep_sources_modes k c i d o li : chk_stable k (c_flags c) = true ->
+  listed_dep_sources k (with_flags c (set_modes (c_flags c) d o li)) i = listed_dep_sources k c i.
+Proof. intros H. unfold listed_dep_sources, dsdl_influences. rewrite types_read_modes by assumption. reflexivity. Qed.
+
+Lemma loaded_not (P : tfile -> bool) ch names n tf :
+  existsb (fun n => match resolve_name ch n with Some f => P f | None => false end) names = false ->
+  In n names -> resolve_name ch n = Some tf -> P tf = false.
+Proof.
+  intros H Hn E. destruct (P tf) eqn:Ep; [|reflexivity]. exfalso.
+  assert (existsb (fun n => match resolve_name ch n with Some f => P f | None => false end) names = true).
+  { apply existsb_exists. exists n. split; [assumption|]. rewrite E. exact Ep. }
+  congruence.
+Qed.
+
 Theorem list_inputs_partial_gen k : (forall fl nse, chk_inputs k fl nse = true) -> (forall fl, chk_stable k fl = true) ->
   forall c i, f_lc (c_flags c) = false ->
   beval (c_flags c) false false false (k_reject k) = false ->
-  trig_lookup i = false -> trig_nonj2 c i = false -> trig_support_override k c = false -> support_consistent c = true ->
+  eff_trig_lookup k i = false -> eff_trig_tpl k c i = false -> eff_trig_sup k c = false ->
+  (k_fix_suptpl k || support_consistent c) = true ->
   forall x, In x (influence_set k c i) ->
   forall f, exists out, run k (li_of c) i f = (f, out, Ok) /\ In x out.
 Proof.
@@ -285,77 +319,105 @@ Proof.
   rewrite (fold_inputs k _ i _ Hshape). eexists. split; [reflexivity|]. cbn [app].
   unfold influence_set, real_of in Hx. rewrite trace_of_modes in Hx. apply in_flat_map in Hx. destruct Hx as (a & Ha & Hx).
   rewrite forallb_forall in Hcov. specialize (Hcov a Ha).
-  destruct a as [g dry o|g o|al|g dry aow o e|]; cbn [influences_of] in Hx; try (destruct Hx).
+  destruct a as [g dry o|g o|al|g dry aow o e| |]; cbn [influences_of] in Hx; try (destruct Hx).
   apply andb_true_iff in Hcov. destruct Hcov as [Hlt Hls].
   unfold lists_templates in Hlt. rewrite existsb_exists in Hlt. destruct Hlt as (b & Hb & Hbe).
-  destruct b as [g' dry' o'|g' o'|al'|g' dry' aow' o' e'|]; try discriminate.
+  destruct b as [g' dry' o'|g' o'|al'|g' dry' aow' o' e'| |]; try discriminate.
   apply andb_true_iff in Hbe. destruct Hbe as [Hg Ho]. apply genid_eqb_spec in Hg. apply eqb_prop in Ho. subst g' o'.
   destruct g.
   - (* type generator *)
+    apply andb_true_iff in Hls. destruct Hls as [Hls Hld].
     apply in_app_or in Hx. destruct Hx as [Hx|Hx].
     + (* a loaded template *)
       apply in_flat_map. exists (EListTemplates GTypes o). split; [assumption|]. cbn [listed_by listed_templates].
       unfold resolved_paths in Hx. apply in_flat_map in Hx. destruct Hx as (n & Hn & Hx).
-      cbn [chain with_flags c_templates c_lang] in Hx.
-      change (match c_templates c with Some d => [d] | None => [l_templates (c_lang c)] end) with (chain c GTypes) in Hx.
+      change (chain (with_flags c (set_modes (c_flags c) (f_dry (c_flags c)) false true)) GTypes) with (chain c GTypes).
       destruct (resolve_name (chain c GTypes) n) as [tf|] eqn:E; [|destruct Hx]. destruct Hx as [<-|[]].
-      unfold trig_nonj2 in Hnj. assert (Hj : tf_j2 tf = true).
-      { destruct (tf_j2 tf) eqn:Ej; [reflexivity|]. exfalso.
-        assert (existsb (fun n => match resolve_name (chain c GTypes) n with Some f => negb (tf_j2 f) | None => false end) (i_loaded_types i) = true).
-        { apply existsb_exists. exists n. split; [assumption|]. rewrite E, Ej. reflexivity. }
-        congruence. }
+      assert (Hl : listable k tf = true).
+      { unfold eff_trig_tpl in Hnj. unfold listable. destruct (k_fix_nonj2 k).
+        - unfold trig_py in Hnj. rewrite (loaded_not tf_py _ _ n tf Hnj Hn E). reflexivity.
+        - unfold trig_nonj2 in Hnj. pose proof (loaded_not (fun f => negb (tf_j2 f)) _ _ n tf Hnj Hn E) as H0.
+          cbn beta in H0. apply negb_false_iff in H0. exact H0. }
       apply resolve_name_in in E. destruct E as (d & Hd & Hf).
-      apply in_flat_map. exists d. split; [exact Hd|]. unfold j2_paths. apply in_map. apply filter_In. split; assumption.
+      apply in_flat_map. exists d. split; [exact Hd|]. unfold listable_paths. apply in_map. apply filter_In. split; assumption.
     + (* a DSDL source *)
       unfold lists_sources in Hls. rewrite existsb_exists in Hls. destruct Hls as (b & Hb' & Hbe).
-      destruct b as [|?|al|?|]; try discriminate.
-      apply in_flat_map. exists (EListSources al). split; [assumption|]. cbn [listed_by]. unfold listed_sources. apply in_or_app. right.
+      destruct b as [|?|al|?| |]; try discriminate.
       unfold dsdl_influences in Hx. apply in_flat_map in Hx. destruct Hx as (t & Ht & Hx).
       apply in_map_iff in Hx. destruct Hx as (d & <- & Hd).
-      unfold types_read in *. cbn [c_flags with_flags] in *.
-      destruct (chk_stable_spec k (c_flags c) (f_dry (c_flags c)) false true Hs) as [Hr2 _].
-      rewrite Hr2.
-      destruct (beval (c_flags c) false false false (k_read k)); [|destruct Ht].
-      apply in_map. apply (closure_roots i Hlk _ t Ht d Hd).
+      destruct (path_in (t_src d) (map t_src (types_read k c i))) eqn:Ein.
+      * apply in_flat_map. exists (EListSources al). split; [assumption|]. cbn [listed_by].
+        rewrite listed_sources_modes by assumption. unfold listed_sources. apply in_or_app. right. apply path_in_spec. exact Ein.
+      * unfold eff_trig_lookup in Hlk. destruct (k_fix_lookup k); cbn [negb orb andb] in Hlk, Hld.
+        -- unfold lists_deps in Hld. rewrite existsb_exists in Hld. destruct Hld as (b & Hb2 & Hbe2).
+           destruct b; try discriminate.
+           apply in_flat_map. exists EListDepSources. split; [assumption|]. cbn [listed_by].
+           rewrite listed_dep_sources_modes by assumption. unfold listed_dep_sources. apply filter_In. split.
+           ++ unfold dsdl_influences. apply in_flat_map. exists t. split; [assumption|]. apply in_map. exact Hd.
+           ++ rewrite Ein. reflexivity.
+        -- exfalso. unfold types_read in Ht, Ein.
+           destruct (beval (c_flags c) false false false (k_read k)); [|destruct Ht].
+           pose proof (closure_roots i Hlk _ t Ht d Hd) as Hroot.
+           assert (path_in (t_src d) (map t_src (i_roots i)) = true) by (apply path_in_spec; apply in_map; exact Hroot).
+           congruence.
   - (* support generator *)
     apply in_flat_map. exists (EListTemplates GSupport o). split; [assumption|]. cbn [listed_by listed_templates].
     unfold resolved_paths in Hx. apply in_flat_map in Hx. destruct Hx as (n & Hn & Hx).
-    unfold support_loaded in Hn. apply in_map_iff in Hn. destruct Hn as (r & <- & Hr). apply filter_In in Hr. destruct Hr as [Hr _].
-    assert (Hmem : In r (l_sup_ser (c_lang c) ++ l_sup_type (c_lang c))).
-    { unfold support_resources in Hr. apply in_flat_map in Hr. destruct Hr as (gr & _ & Hr). cbn [c_lang with_flags] in Hr.
-      destruct (fst gr && o); [destruct Hr|]. apply in_or_app. destruct (snd gr); [left|right]; assumption. }
-    unfold support_consistent in Hsc. rewrite forallb_forall in Hsc. specialize (Hsc r Hmem).
-    assert (Hres : resolve_name (chain c GSupport) (sr_name r) = find_name (l_support_dir (c_lang c)) (sr_name r)).
-    { unfold chain. unfold trig_support_override in Hso. destruct (c_support_templates c) as [d|].
-      - cbn [resolve_name]. destruct (find_name d (sr_name r)) eqn:E.
-        + exfalso. assert (existsb (fun r0 => match find_name d (sr_name r0) with Some _ => true | None => false end)
-                                   (l_sup_ser (c_lang c) ++ l_sup_type (c_lang c)) = true).
-          { apply existsb_exists. exists r. split; [assumption|]. rewrite E. reflexivity. }
-          congruence.
-        + destruct (find_name (l_support_dir (c_lang c)) (sr_name r)); reflexivity.
-      - cbn [resolve_name]. destruct (find_name (l_support_dir (c_lang c)) (sr_name r)); reflexivity. }
+    unfold support_loaded in Hn. apply in_map_iff in Hn. destruct Hn as (r & <- & Hr). apply filter_In in Hr. destruct Hr as [Hr Hj].
     change (chain (with_flags c (set_modes (c_flags c) false false false)) GSupport) with (chain c GSupport) in Hx.
-    rewrite Hres in Hx. destruct (find_name (l_support_dir (c_lang c)) (sr_name r)) as [tf|]; [|discriminate].
-    destruct Hx as [<-|[]]. destruct (path_eqb_spec (tf_path tf) (sr_path r)) as [->|]; [|discriminate].
-    apply in_map.
+    change (support_resources k (with_flags c (set_modes (c_flags c) false false false)) o) with (support_resources k c o) in Hr.
     change (support_resources k (with_flags c (set_modes (c_flags c) (f_dry (c_flags c)) false true)) o) with (support_resources k c o).
-    exact Hr.
+    apply in_map_iff. exists r. split; [|exact Hr]. unfold sup_listed_path.
+    change (chain (with_flags c (set_modes (c_flags c) (f_dry (c_flags c)) false true)) GSupport) with (chain c GSupport).
+    unfold eff_trig_sup in Hso. destruct (k_fix_suptpl k); cbn [negb andb orb] in Hso, Hsc |- *.
+    + rewrite Hj. destruct (resolve_name (chain c GSupport) (sr_name r)) as [tf|]; [|destruct Hx].
+      destruct Hx as [<-|[]]. reflexivity.
+    + assert (Hmem : In r (l_sup_ser (c_lang c) ++ l_sup_type (c_lang c))).
+      { unfold support_resources in Hr. apply in_flat_map in Hr. destruct Hr as (gr & _ & Hr).
+        destruct (fst gr && o); [destruct Hr|]. apply in_or_app. destruct (snd gr); [left|right]; assumption. }
+      unfold support_consistent in Hsc. rewrite forallb_forall in Hsc. specialize (Hsc r Hmem).
+      assert (Hres : resolve_name (chain c GSupport) (sr_name r) = find_name (l_support_dir (c_lang c)) (sr_name r)).
+      { unfold chain. unfold trig_support_override in Hso. destruct (c_support_templates c) as [d|].
+        - cbn [resolve_name]. destruct (find_name d (sr_name r)) eqn:E.
+          + exfalso. assert (existsb (fun r0 => match find_name d (sr_name r0) with Some _ => true | None => false end)
+                                     (l_sup_ser (c_lang c) ++ l_sup_type (c_lang c)) = true).
+            { apply existsb_exists. exists r. split; [assumption|]. rewrite E. reflexivity. }
+            congruence.
+          + destruct (find_name (l_support_dir (c_lang c)) (sr_name r)); reflexivity.
+        - cbn [resolve_name]. destruct (find_name (l_support_dir (c_lang c)) (sr_name r)); reflexivity. }
+      rewrite Hres in Hx. destruct (find_name (l_support_dir (c_lang c)) (sr_name r)) as [tf|]; [|discriminate].
+      destruct Hx as [<-|[]]. destruct (path_eqb_spec (tf_path tf) (sr_path r)) as [->|]; [reflexivity|discriminate].
+Qed.
+
+(* the full statement for a code that has the three repairs *)
+Theorem list_inputs_complete_gen k : (forall fl nse, chk_inputs k fl nse = true) -> (forall fl, chk_stable k fl = true) ->
+  k_fix_lookup k = true -> k_fix_nonj2 k = true -> k_fix_suptpl k = true ->
+  forall c i, f_lc (c_flags c) = false -> beval (c_flags c) false false false (k_reject k) = false -> trig_py c i = false ->
+  forall x, In x (influence_set k c i) ->
+  forall f, exists out, run k (li_of c) i f = (f, out, Ok) /\ In x out.
+Proof.
+  intros Hchk Hst H1 H2 H3 c i Hlc Hrej Hpy. apply (list_inputs_partial_gen k Hchk Hst c i Hlc Hrej).
+  - unfold eff_trig_lookup. rewrite H1. reflexivity.
+  - unfold eff_trig_tpl. rewrite H2. exact Hpy.
+  - unfold eff_trig_sup. rewrite H3. reflexivity.
+  - rewrite H3. reflexivity.
 Qed.
 
 (* ---- theorem 4: what --list-inputs prints for a generator is a set of PATHS ------------------- *)
-(* type generator: exactly the paths of the files with the template suffix in the directories of its loader chain --
-   two files with the same name in different directories are two entries *)
+(* type generator: exactly the paths of the listable files (template suffix; after the repair of F-LIST-INPUTS-NONJ2 every file
+   that is not a Python package file) in the directories of its loader chain -- two files with the same name in different
+   directories are two entries *)
 Theorem listed_templates_servable_gen k c o p :
-  In p (listed_templates k c GTypes o) <-> exists d f, In d (chain c GTypes) /\ In f d /\ tf_j2 f = true /\ tf_path f = p.
+  In p (listed_templates k c GTypes o) <-> exists d f, In d (chain c GTypes) /\ In f d /\ listable k f = true /\ tf_path f = p.
 Proof.
   cbn [listed_templates]. rewrite in_flat_map. split.
-  - intros (d & Hd & Hp). unfold j2_paths in Hp. apply in_map_iff in Hp. destruct Hp as (f & Hf & Hin).
+  - intros (d & Hd & Hp). unfold listable_paths in Hp. apply in_map_iff in Hp. destruct Hp as (f & Hf & Hin).
     apply filter_In in Hin. destruct Hin as [Hin Hj]. exists d, f. auto.
-  - intros (d & f & Hd & Hf & Hj & Hp). exists d. split; [assumption|]. unfold j2_paths. apply in_map_iff. exists f.
+  - intros (d & f & Hd & Hf & Hj & Hp). exists d. split; [assumption|]. unfold listable_paths. apply in_map_iff. exists f.
     split; [assumption|]. apply filter_In. auto.
 Qed.
 
-(* support generator: exactly the paths of the packaged resources SupportGenerator.get_templates enumerates *)
+(* support generator: the packaged resources SupportGenerator.get_templates enumerates, each as the path sup_listed_path gives *)
 Theorem listed_support_resources_gen k c o p :
-  In p (listed_templates k c GSupport o) <-> exists r, In r (support_resources k c o) /\ sr_path r = p.
+  In p (listed_templates k c GSupport o) <-> exists r, In r (support_resources k c o) /\ sup_listed_path k c r = p.
 Proof. cbn [listed_templates]. rewrite in_map_iff. split; intros (r & H1 & H2); exists r; auto. Qed.
